@@ -63,7 +63,21 @@ type unit struct {
 	consts, vars   []string
 	funcs          []string
 	opaque         map[string][]opq // function -> opaque callees
+	block          map[string][]opq // function -> block-cipher calls `callee(dst, src)` (cipher.Block Encrypt/Decrypt)
+	abstract       map[string][]string // function -> constructors of abstract objects (cipher.Block …), assumed to succeed
+	apply          map[string][]opq // function -> length-preserving keyed store calls `callee(dst, src)` (cipher.Stream.XORKeyStream)
+	fill           map[string][]opq // function -> calls `callee(dst)` that overwrite dst with fresh bytes
+	inout          map[string][]opq // function -> calls `x, err := callee(dst, args…)` that write the window dst and return it
+	ctor           map[string][]opq // function -> constructor calls whose value is represented by one argument (name = its index)
+	stateful       map[string]bool  // functions translated in stateful mode (stateful.go)
+	extern         map[string][]externOp
+	externKind     map[string]string // callee -> "read" | "write"
+	errcodes       map[string]int    // sentinel errors (printed form, e.g. io.EOF or ErrTooManySegments) -> code ≥ 2
+	records        map[string][]string // -record pkg.Type -> field paths
+	repr           map[string]kind  // named types (pkgpath.Name) represented by a value of the given kind
 	regions        []regionSpec
+	procs          map[string]int // emitted procedures with exactly one written slice parameter: name -> its index
+	sigs           map[string]*fsig // every emitted function: its Lean binders (callable from later functions of the unit)
 
 	pkg   *types.Package
 	info  *types.Info
@@ -152,7 +166,10 @@ func main() {
 		case "-out":
 			out = v
 		case "-pkg":
-			cur = &unit{dir: v, opaque: map[string][]opq{}, emitted: map[string]bool{}}
+			cur = &unit{dir: v, opaque: map[string][]opq{}, block: map[string][]opq{}, abstract: map[string][]string{},
+				apply: map[string][]opq{}, fill: map[string][]opq{}, ctor: map[string][]opq{}, repr: map[string]kind{}, inout: map[string][]opq{},
+				emitted: map[string]bool{}, procs: map[string]int{}, sigs: map[string]*fsig{},
+				records: map[string][]string{}, stateful: map[string]bool{}, extern: map[string][]externOp{}, externKind: map[string]string{}, errcodes: map[string]int{}}
 			cur.sub = strings.Title(filepath.Base(v))
 			t.units = append(t.units, cur)
 		case "-sub":
@@ -172,6 +189,64 @@ func main() {
 				die("bad -opaque %q", v)
 			}
 			cur.opaque[fn] = append(cur.opaque[fn], opq{callee, name})
+		case "-block": // fn:callee=name   (callee(dst, src) is a 16-byte block-cipher call; name : Bytes → Bytes)
+			fn, rest, ok := strings.Cut(v, ":")
+			callee, name, ok2 := strings.Cut(rest, "=")
+			if !ok || !ok2 {
+				die("bad -block %q", v)
+			}
+			cur.block[fn] = append(cur.block[fn], opq{callee, name})
+		case "-apply", "-fill", "-ctor", "-inout": // fn:callee=name
+			fn, rest, ok := strings.Cut(v, ":")
+			callee, name, ok2 := strings.Cut(rest, "=")
+			if !ok || !ok2 {
+				die("bad %s %q", args[i], v)
+			}
+			m := map[string]map[string][]opq{"-apply": cur.apply, "-fill": cur.fill, "-ctor": cur.ctor, "-inout": cur.inout}[args[i]]
+			m[fn] = append(m[fn], opq{callee, name})
+		case "-repr": // pkgpath.Type=Bytes|Nat|Int
+			ty, kn, ok := strings.Cut(v, "=")
+			kk, ok2 := map[string]kind{"Bytes": kBytes, "Nat": kNat, "Int": kInt}[kn]
+			if !ok || !ok2 {
+				die("bad -repr %q", v)
+			}
+			cur.repr[ty] = kk
+		case "-record": // pkgname.Type=path,path.sub,…
+			ty, paths, ok := strings.Cut(v, "=")
+			if !ok {
+				die("bad -record %q", v)
+			}
+			cur.records[ty] = splitList(paths)
+		case "-stateful": // fn[,fn…]
+			for _, fn := range splitList(v) {
+				cur.stateful[fn] = true
+			}
+		case "-extern": // fn:callee=name@path:read|write
+			fn, rest, ok := strings.Cut(v, ":")
+			callee, rest2, ok2 := strings.Cut(rest, "=")
+			name, rest3, ok3 := strings.Cut(rest2, "@")
+			path, kindS, ok4 := strings.Cut(rest3, ":")
+			if !ok || !ok2 || !ok3 || !ok4 || (kindS != "read" && kindS != "write" && kindS != "value") {
+				die("bad -extern %q", v)
+			}
+			cur.extern[fn] = append(cur.extern[fn], externOp{callee, name, path})
+			cur.externKind[fn+":"+callee] = kindS
+		case "-errcodes": // name=code,name=code
+			for _, kv := range splitList(v) {
+				nm, cs, ok := strings.Cut(kv, "=")
+				code := 0
+				fmt.Sscanf(cs, "%d", &code)
+				if !ok || code < 2 {
+					die("bad -errcodes %q (codes start at 2)", kv)
+				}
+				cur.errcodes[nm] = code
+			}
+		case "-abstract": // fn:callee   (x, err := callee(…) yields an abstract object; the error is assumed nil)
+			fn, callee, ok := strings.Cut(v, ":")
+			if !ok {
+				die("bad -abstract %q", v)
+			}
+			cur.abstract[fn] = append(cur.abstract[fn], callee)
 		case "-region": // name=fn|start|end|outs
 			name, rest, ok := strings.Cut(v, "=")
 			parts := strings.Split(rest, "|")
@@ -196,13 +271,21 @@ func main() {
 		"   Assumptions of the translation: distinct slice parameters do not overlap; callees declared opaque are pure;\n" +
 		"   re-slicing beyond len is out of range; out-of-range stores/slices (Go: panic) give the poison value []. -/\n")
 	sb.WriteString("import TinkVerif.Base.GoSemBytes\nset_option linter.unusedVariables false\nnamespace " + t.ns + "\nopen TinkVerif\n\n")
+	var body strings.Builder
+	recordSpecs = map[string][]string{}
 	for _, u := range t.units {
 		t.u = u
+		reprKinds = u.repr
+		for k, v := range u.records {
+			recordSpecs[k] = v
+		}
 		t.load(u, imp)
-		sb.WriteString("namespace " + u.sub + "\n\n")
-		t.emitUnit(u, &sb)
-		sb.WriteString("end " + u.sub + "\n\n")
+		body.WriteString("namespace " + u.sub + "\n\n")
+		t.emitUnit(u, &body)
+		body.WriteString("end " + u.sub + "\n\n")
 	}
+	t.emitRecords(&sb) // the structures of the records the units use (none for most files)
+	sb.WriteString(body.String())
 	sb.WriteString("end " + t.ns + "\n")
 	if len(t.errs) > 0 {
 		for _, e := range t.errs {
@@ -379,6 +462,16 @@ func (t *tr) emitUnit(u *unit, sb *strings.Builder) {
 				for _, sp := range gd.Specs {
 					vs := sp.(*ast.ValueSpec)
 					for i, n := range vs.Names {
+						if n.Name == vname && len(vs.Values) == 0 {
+							// no initialiser: the zero value
+							if arr, ok := v.Type().Underlying().(*types.Array); ok {
+								if k, _ := classify(v.Type()); k == kBytes {
+									sb.WriteString(fmt.Sprintf("def %s : Bytes := GoSem.makeBytes (%d : Int)\n\n", leanName(vname), arr.Len()))
+									found = true
+								}
+							}
+							continue
+						}
 						if n.Name != vname || i >= len(vs.Values) || len(vs.Names) != len(vs.Values) {
 							continue
 						}
